@@ -4,18 +4,23 @@ From stdpp Require Import gmap.
 From Coq Require Import NArith.
 From PV Require Import C01.FS.
 
-(* which variable the deferred commit/cleanup decision of a function reads *)
-Inductive key := KFlag | KErr.
-(* does the deferred closure take the commit branch, given how the body ended?
-   KFlag:  defer func() { if !ok { cleanup }; commit }   with `ok = true` the last statement
-           of the body: commit iff the body returned nil.
-   KErr:   defer func() { if err != nil { cleanup }; commit }: the named result err is non-nil
-           only when the body RETURNED an error; when the body panics err is still nil. *)
-Definition commits (k : key) (r : ctl) : bool :=
+(* which variable the commit/cleanup decision of a function reads, and whether it is deferred *)
+Inductive key := KFlag | KErr | KNone.
+Inductive action := ACommit | ACleanup | ANothing.
+(* what runs after the body, given how the body ended:
+   KFlag:  defer func() { if !ok { cleanup; return }; commit }()   with `ok = true` the last statement
+           of the body: commit iff the body returned nil; cleanup otherwise, also on panic.
+   KErr:   defer func() { if err != nil { cleanup; return }; commit }(): the named result err is non-nil
+           only when the body RETURNED an error; when the body panics err is still nil: commit.
+   KNone:  no defer:  if err := body(); err != nil { return cleanup(err) }; return commit()
+           nothing runs when the body panics. *)
+Definition decide (k : key) (r : ctl) : action :=
   match k, r with
-  | _, COk => true
-  | KErr, CPanic => true
-  | _, _ => false
+  | _, COk => ACommit
+  | _, CErr => ACleanup
+  | KFlag, CPanic => ACleanup
+  | KErr, CPanic => ACommit
+  | KNone, CPanic => ANothing
   end.
 
 Definition opt_eqb (a b : option positive) : bool :=
@@ -133,7 +138,7 @@ Fixpoint open_all (opened todo : list positive) (w : world) : bool * world :=
    MergeCreateFile with ins = [] and inF = None, MergeCreateZipFile with two inputs):
      open the inputs; tmpFile := outFile if outFile != "" && inFile != outFile else "";
      staged, err := openStagedOutput(f1, inFile, tmpFile, op); on error close the inputs;
-     defer func() { if <key> { err = staged.cleanup(err); return }; err = staged.commit() }()
+     defer func() { if <key> { err = staged.cleanup(err); return }; err = staged.commit() }()   (see `decide`)
      body (writes into staged.output.file); ok = true *)
 Definition api_file (k : key) (ins : list positive) (inF outF : option positive)
            (chunks : list bytes) (fin : ctl) (w : world) : ctl * world :=
@@ -147,7 +152,11 @@ Definition api_file (k : key) (ins : list positive) (inF outF : option positive)
     | Fail _ w => (CErr, snd (close_all ins w))
     | Done s w =>
         with_defer (body (s_out s) chunks fin)
-                   (fun r w => if commits k r then commit s w else (CErr, cleanup s w)) w
+                   (fun r w => match decide k r with
+                               | ACommit => commit s w
+                               | ACleanup => (CErr, cleanup s w)
+                               | ANothing => (r, w)
+                               end) w
     end
   end.
 
